@@ -11,7 +11,9 @@ EXPLANATION = (
     "R4 sibling table of the 11 operator methods (constant branch -> converter + const_op_sizing, Fxp branch -> op_sizing, own function, operand order for reflected "
     "methods, forwarded out/out_like/method; reflected aliases only for commutative operators); R5 constant conversion table ('same' -> Fxp(x, like=self), "
     "'best' -> Fxp(x), else raise; keys = Config's list); R6 unary -, +, abs rebuild raw codes in the operand's own format; fresh status on like=/template "
-    "construction so stale flags are not inherited. Residual: raw and repr methods producing bit-identical doubles.")
+    "construction so stale flags are not inherited. Residual: raw and repr methods producing bit-identical doubles."
+    ' Added after the third round of seeded changes: R3b with out_like= the constructor receives no operand-derived signedness or size; both range tests on every store (C04.R1); route selection (C07.R8); transparent numpy dispatch (C15.R5).'
+)
 ASSUMPTIONS = ["the sink (constructor/set_val) quantizes as decided under C01 with the configuration it is given"]
 TRUSTED = ["CPython ast", "scale typing rules of DESIGN A6"]
 
